@@ -518,7 +518,10 @@ def nlri_units(tier):
                 add(fam + '/addpath', a, s, swept([x + 4 for x in lens] + [0, 3, 4]), ('decoded', 'refused', 'canonical'), addpath=True, weight=20)
         elif s == 4:
             lens = (rng(0, 8) + [11, full + 4, full + 7]) if not th else rng(0, full + 8)
-            add(fam + '/swept', a, s, swept(lens), ('decoded', 'refused', 'canonical', 'non-canonical'), weight=60)
+            # two units (the long buffers hold up to three labels in front of a full address: most of the paths)
+            add(fam + '/swept', a, s, swept([x for x in lens if x <= 11]), ('decoded', 'refused', 'canonical', 'non-canonical'), weight=150)
+            for x in [x for x in lens if x > 11]:
+                add(fam + '/swept-%d' % x, a, s, swept([x]), ('decoded', 'canonical', 'non-canonical'), weight=300 if x > 12 else 100)
             add(fam + '/withdraw', a, s, swept(rng(3, 8)), ('decoded', 'refused', 'canonical', 'non-canonical'), action=Action.WITHDRAW, weight=40)
             add(fam + '/addpath', a, s, swept([x + 4 for x in (rng(0, 6) if not th else rng(0, 9))]), ('decoded', 'refused', 'canonical', 'non-canonical'), addpath=True, weight=40)
         elif s == 128:
@@ -1232,7 +1235,7 @@ def attr_plans(tier):
                 tag = 'asn4' if asn4 else 'asn2'
                 add('%s/%s/one-segment' % (c, tag), code, flag, sh_aspath(asn4, ((None, (0, 1, 2, 3)),)), asn4=asn4, weight=30)
                 add('%s/%s/two-segments' % (c, tag), code, flag, sh_aspath(asn4, ((None, (1, 2)), (None, (0, 1)))), asn4=asn4, weight=60)
-                add('%s/%s/truncated' % (c, tag), code, flag, lambda ctx, a=asn4: Shape([ctx.byte('t'), ctx.pick('c', (1, 2, 255))] + sym(ctx, 's', ctx.pick('n', (0, 1, 3, 5)))), ('refused',), asn4=asn4)
+                add('%s/%s/truncated' % (c, tag), code, flag, lambda ctx, a=asn4: Shape([ctx.byte('t'), ctx.pick('c', (1, 2, 255))] + sym(ctx, 's', ctx.pick('n', (0, 1, 3, 5) if a or th else (0, 1, 3)))), ('refused',), asn4=asn4)
                 add('%s/%s/empty' % (c, tag), code, flag, lambda ctx: Shape([]), ('decoded',), asn4=asn4)
             if th:
                 add(c + '/free', code, flag, sh_swept((1, 2, 3, 6)), ('decoded', 'refused'), weight=400, max_paths=60000)
